@@ -1152,6 +1152,8 @@ def run(chk):
         "link_followed_only_from_matching_status: exact / NXX / default matching and first-match bundle selection",
         "parser_position_free, parser_sound (parser o printer = id on the grammar's syntax trees), parser_full_false (FC10b), "
         "stray_pointer_witness (FC10a)",
+        "parser_rejects_unknown_variable, parser_rejects_unbalanced_braces: any unknown $-word and any nested / unmatched / "
+        "unclosed brace is rejected, for every expression and variant",
         "eval_sound: evaluate(render t) = reference evaluation of t for all well-formed link values and exchanges "
         "(repaired variants); eval_full_false (F17 reaches link values)",
         "step_input_values / step_input_override / merge_body_members / body_replaced_or_untouched: what "
@@ -1159,9 +1161,9 @@ def run(chk):
         "cache_key_sound: the lru_cache keyed by case id returns what _extract_impl computes, given unique case ids",
     ]
     chk.partial += [
-        "rejection of malformed expressions (unknown $-word, bad source, unbalanced/nested braces, invalid extractor) is "
-        "NOT proved: it is checked on every generated/mutated expression and exhaustively on all strings of length <= 4/5 "
-        "over {$ . { } # a} against an independent Python classifier",
+        "rejection of the remaining malformed classes ($request/$response without a valid source or name, extractor that "
+        "is not a one-group regex) is NOT proved: it is checked on every generated/mutated expression and exhaustively on "
+        "all strings of length <= 4/5 over {$ . { } # a} against an independent Python classifier",
         "parser_sound / eval_sound cover link values whose literal text has no `#` and names without `$ . { } #`; "
         "str() of floats / lists / dicts inside an embedding and json.dumps of container-valued object keys are out of "
         "the model (counted as out-of-model, compared by nobody)",
